@@ -19,17 +19,18 @@ import (
 // re-seeds before every operation that ends up here.
 
 type ForeignParams struct {
-	KeyAlg string `json:"keyAlg,omitempty"` // gopki key algorithm name; default P-256
-	Str    string `json:"str,omitempty"`    // printable | utf8 | ia5 | teletex : DN string type
-	Parts  string `json:"parts,omitempty"`  // cert+key | key | csr | cert+csr | cert
-	P8     string `json:"p8,omitempty"`     // EC: outer | inner | both ; RSA: null | noparams
-	Pub    bool   `json:"pub,omitempty"`    // EC: include the optional public key
-	Pad    string `json:"pad,omitempty"`    // EC scalar: fixed | stripped | extra
-	Sig    string `json:"sig,omitempty"`    // signature algorithm name; default SHA-256 of the signer's family
-	AltDN  bool   `json:"altDN,omitempty"`  // the certificate's subject text differs from the config's subject
-	Order  string `json:"order,omitempty"`  // "" certificate first | key-first (as some tools write it)
-	Point  string `json:"point,omitempty"`  // EC public key in the certificate: "" uncompressed | compressed (NIST curves only)
-	Odd    string `json:"odd,omitempty"`    // structurally valid but unusual certificate/request (see oddKinds)
+	KeyAlg  string `json:"keyAlg,omitempty"`  // gopki key algorithm name; default P-256
+	Str     string `json:"str,omitempty"`     // printable | utf8 | ia5 | teletex : DN string type
+	Parts   string `json:"parts,omitempty"`   // cert+key | key | csr | cert+csr | cert
+	P8      string `json:"p8,omitempty"`      // EC: outer | inner | both ; RSA: null | noparams
+	Pub     bool   `json:"pub,omitempty"`     // EC: include the optional public key
+	PubForm string `json:"pubForm,omitempty"` // EC: point form of that optional public key: "" uncompressed | compressed | hybrid (SEC 1 2.3.3)
+	Pad     string `json:"pad,omitempty"`     // EC scalar: fixed | stripped | extra
+	Sig     string `json:"sig,omitempty"`     // signature algorithm name; default SHA-256 of the signer's family
+	AltDN   bool   `json:"altDN,omitempty"`   // the certificate's subject text differs from the config's subject
+	Order   string `json:"order,omitempty"`   // "" certificate first | key-first (as some tools write it)
+	Point   string `json:"point,omitempty"`   // EC public key in the certificate: "" uncompressed | compressed (NIST curves only)
+	Odd     string `json:"odd,omitempty"`     // structurally valid but unusual certificate/request (see oddKinds)
 }
 
 func (f ForeignParams) JSON() string { b, _ := json.Marshal(f); return string(b) }
@@ -87,6 +88,19 @@ func ecPointBytes(curve elliptic.Curve, x, y *big.Int) []byte {
 	return out
 }
 
+// ecPointForm: the three encodings of SEC 1 section 2.3.3 (any curve).
+func ecPointForm(curve elliptic.Curve, x, y *big.Int, form string) []byte {
+	full := ecPointBytes(curve, x, y)
+	bl := (len(full) - 1) / 2
+	switch form {
+	case "compressed":
+		return append([]byte{byte(2 + y.Bit(0))}, full[1:1+bl]...)
+	case "hybrid":
+		full[0] = byte(6 + y.Bit(0))
+	}
+	return full
+}
+
 func (k *genKeyT) spkiForm(point string) []byte {
 	if k.fam == "ec" && point == "compressed" && isNISTCurve(k.curve) {
 		return derSeq(derSeq(derOIDBytes(oidECPub), derOIDBytes(k.curve)), derBitString(elliptic.MarshalCompressed(k.ec.Curve, k.ec.X, k.ec.Y)))
@@ -139,7 +153,7 @@ func (k *genKeyT) pkcs8(p ForeignParams) []byte {
 		parts = append(parts, derTLV(0xa0, derOIDBytes(k.curve)))
 	}
 	if p.Pub {
-		parts = append(parts, derTLV(0xa1, derBitString(ecPointBytes(k.ec.Curve, k.ec.X, k.ec.Y))))
+		parts = append(parts, derTLV(0xa1, derBitString(ecPointForm(k.ec.Curve, k.ec.X, k.ec.Y, p.PubForm))))
 	}
 	alg := derSeq(derOIDBytes(oidECPub), derOIDBytes(k.curve))
 	if p.P8 == "inner" {
